@@ -374,20 +374,64 @@ func scanProcessState(fns []*ssa.Function) (globals []finding, maps []finding) {
 // branch (simulation, failed tx, aborted optimistic execution), so later results
 // depend on the node's process history.
 func scanProcessMemory(fns []*ssa.Function, modPrefix string) (bad []finding) {
-	isLongLived := func(t types.Type) (string, bool) {
-		if p, ok := t.Underlying().(*types.Pointer); ok {
-			t = p.Elem()
+	// long-lived struct types: module structs (not protobuf messages) that carry exported
+	// methods (keepers, message servers, queriers, hooks, decorators, lane handlers: the
+	// objects the app holds for the life of the process) and every module struct reachable
+	// from them through fields.  Private carrier structs that only travel between the
+	// helpers of one call are not process memory.
+	modStruct := func(t types.Type) (*types.Named, bool) {
+		for {
+			switch u := t.(type) {
+			case *types.Pointer:
+				t = u.Elem()
+				continue
+			}
+			break
 		}
 		n, ok := t.(*types.Named)
 		if !ok || n.Obj().Pkg() == nil || !strings.HasPrefix(n.Obj().Pkg().Path(), modPrefix) {
-			return "", false
+			return nil, false
 		}
 		if _, ok := n.Underlying().(*types.Struct); !ok {
-			return "", false
+			return nil, false
 		}
-		// protobuf messages are values travelling with a request, not process memory
-		ms := types.NewMethodSet(types.NewPointer(n))
-		if ms.Lookup(nil, "ProtoMessage") != nil {
+		if types.NewMethodSet(types.NewPointer(n)).Lookup(nil, "ProtoMessage") != nil {
+			return nil, false
+		}
+		return n, true
+	}
+	long := map[*types.TypeName]bool{}
+	var reach func(n *types.Named)
+	reach = func(n *types.Named) {
+		if long[n.Obj()] {
+			return
+		}
+		long[n.Obj()] = true
+		st := n.Underlying().(*types.Struct)
+		for i := 0; i < st.NumFields(); i++ {
+			ft := st.Field(i).Type()
+			switch u := ft.Underlying().(type) {
+			case *types.Slice:
+				ft = u.Elem()
+			case *types.Map:
+				ft = u.Elem()
+			}
+			if m, ok := modStruct(ft); ok {
+				reach(m)
+			}
+		}
+	}
+	for _, fn := range fns {
+		if fn.Signature.Recv() == nil || !token.IsExported(fn.Name()) {
+			continue
+		}
+		if n, ok := modStruct(fn.Signature.Recv().Type()); ok {
+			reach(n)
+		}
+	}
+	isLongLived := func(t types.Type) (string, bool) {
+		n, ok := modStruct(t)
+		if !ok || !long[n.Obj()] {
 			return "", false
 		}
 		return shortName(n.Obj().Pkg().Path() + "." + n.Obj().Name()), true
